@@ -1,7 +1,8 @@
 (* C05 — Range analysis of plural expressions is sound.
    Property theorems only; every proof is `exact <lemma>`; Print Assumptions below each. *)
 From Coq Require Import ZArith List.
-From I18n Require Import Lib.Outcome Model.IntExpr Proofs.Codomain.
+From I18n Require Import Lib.Outcome Model.IntExpr Proofs.Codomain
+  Lib.PySrc Generated.IntExprSrc Proofs.IntExprSrc Proofs.IntExprSrcCd.
 Import ListNotations.
 Local Open Scope Z_scope.
 
@@ -33,6 +34,65 @@ Theorem C05_every_width : forall (b : nat) e L R, codomain (2 ^ Z.of_nat b) e = 
   forall n v, 0 <= n < 2 ^ Z.of_nat b -> pyeval (2 ^ Z.of_nat b) e n = Ok v -> L <= v <= R.
 Proof. exact (fun b e L R => codomain_bounds (2 ^ Z.of_nat b) e L R (pow2_ge1 b)). Qed.
 Print Assumptions C05_every_width.
+
+(* ---- Source tie.  Generated/IntExprSrc.v is the statement-by-statement translation (tools/gen/gen_intexpr_src.py) of the
+   methods of lib/intexpr.py, regenerated from the working tree on every run.  Every translated method of class
+   CodomainEvaluator equals the piece of `codomain` it corresponds to, for all arguments. *)
+Theorem C05_source_tie_arith : forall M x0 x1 y0 y1,
+  src_cd_add M (x0, x1) (y0, y1) = of_cres (cd_bin M Add x0 x1 y0 y1) /\
+  src_cd_sub (x0, x1) (y0, y1) = of_cres (cd_bin M Sub x0 x1 y0 y1) /\
+  src_cd_mult M (x0, x1) (y0, y1) = of_cres (cd_bin M Mult x0 x1 y0 y1) /\
+  src_cd_div (x0, x1) (y0, y1) = of_cres (cd_bin M Div x0 x1 y0 y1) /\
+  src_cd_mod (x0, x1) (y0, y1) = of_cres (cd_bin M Mod x0 x1 y0 y1).
+Proof. exact cd_tie_arith. Qed.
+Print Assumptions C05_source_tie_arith.
+
+Theorem C05_source_tie_compare : forall x0 x1 y0 y1,
+  src_cd_gte (x0, x1) (y0, y1) = of_cres (cd_cmp CGe x0 x1 y0 y1) /\
+  src_cd_gt (x0, x1) (y0, y1) = of_cres (cd_cmp CGt x0 x1 y0 y1) /\
+  src_cd_lte (x0, x1) (y0, y1) = of_cres (cd_cmp CLe x0 x1 y0 y1) /\
+  src_cd_lt (x0, x1) (y0, y1) = of_cres (cd_cmp CLt x0 x1 y0 y1) /\
+  src_cd_eq (x0, x1) (y0, y1) = of_cres (cd_cmp CEq x0 x1 y0 y1) /\
+  src_cd_noteq (x0, x1) (y0, y1) = of_cres (cd_cmp CNe x0 x1 y0 y1) /\
+  src_cd_not (x0, x1) = of_cres (cd_not x0 x1).
+Proof. exact cd_tie_compare. Qed.
+Print Assumptions C05_source_tie_compare.
+
+(* the loops, for every visit function f and every argument list (the source visits lazily, the model maps f first) *)
+Theorem C05_source_tie_and : forall (A : Type) (f : A -> cres) l,
+  src_cd_and (fun a => of_cres (f a)) l = of_cres (cd_and_loop 1 1 (map f l)).
+Proof. exact @src_cd_and_eq. Qed.
+Print Assumptions C05_source_tie_and.
+Theorem C05_source_tie_or : forall (A : Type) (f : A -> cres) l,
+  src_cd_or (fun a => of_cres (f a)) l = of_cres (cd_or_loop 0 0 (map f l)).
+Proof. exact @src_cd_or_eq. Qed.
+Print Assumptions C05_source_tie_or.
+Theorem C05_source_tie_ifexp : forall (A : Type) (f : A -> cres) c a b,
+  src_cd_ifexp (fun a => of_cres (f a)) c a b = of_cres (cd_if (f c) (f a) (f b)).
+Proof. exact @src_cd_ifexp_eq. Qed.
+Print Assumptions C05_source_tie_ifexp.
+Theorem C05_source_tie_leaves : forall M z,
+  src_cd_num M z = of_cres (codomain M (Num z)) /\ src_cd_name M = of_cres (codomain M Var).
+Proof. exact cd_tie_leaves. Qed.
+Print Assumptions C05_source_tie_leaves.
+
+(* one step of the visitor assembled from the translated BaseEvaluator methods and the leaf methods, through the
+   hand-written mirror cd_visit1/2/n of the getattr dispatch, is one step of `codomain` *)
+Theorem C05_source_tie_visitor : forall M,
+  (forall o a b, src_base_binop (cd_vis M) (cd_visit2 M) (NE a) (NE b) (NBin o) = of_cres (codomain M (Bin o a b))) /\
+  (forall o a b, src_base_compare (cd_vis M) (cd_visit2 M) [NE b] [NCmp o] (NE a) = of_cres (codomain M (Cmp o a b))) /\
+  (forall a, src_base_unaryop (cd_vis M) cd_visit1 (NE a) NNot = of_cres (codomain M (Not a))) /\
+  (forall a b, src_base_boolop (cd_visitn M) NAnd [NE a; NE b] = of_cres (codomain M (And a b))) /\
+  (forall a b, src_base_boolop (cd_visitn M) NOr [NE a; NE b] = of_cres (codomain M (Or a b))) /\
+  (forall c a b, src_cd_ifexp (cd_vis M) (NE c) (NE a) (NE b) = of_cres (codomain M (If c a b))).
+Proof. exact cd_tie_visitor. Qed.
+Print Assumptions C05_source_tie_visitor.
+
+(* the untranslated parts (constructors: max = 1 << bits; __call__, the getattr dispatch _visit, _visit_expr) still have
+   the source text whose digest is recorded in the translator *)
+Theorem C05_source_tie_untranslated_pinned : src_pin_base = true /\ src_pin_cd = true.
+Proof. exact cd_pins. Qed.
+Print Assumptions C05_source_tie_untranslated_pinned.
 
 (* Non-vacuity: the hypotheses are met by concrete, non-trivial expressions. *)
 Definition polish : expr :=   (* n==1 ? 0 : n%10>=2 && n%10<=4 && (n%100<10 || n%100>=20) ? 1 : 2 *)
